@@ -106,7 +106,14 @@ class DiffRun:
 
     def match(self):
         m = self.d.match()
-        self.matches = [(self.lenc.idof(a), self.renc.idof(b)) for a, b, _ in m]
+        # a matched node that is not a node of the two trees has no id: -1 (the C07 oracle reports it, and the model,
+        # which only pairs nodes of the documents, disagrees)
+        def ident(enc, e):
+            try:
+                return enc.idof(e)
+            except KeyError:
+                return -1
+        self.matches = [(ident(self.lenc, a), ident(self.renc, b)) for a, b, _ in m]
         return self.matches
 
     def script(self):
